@@ -59,6 +59,13 @@ def mc_cases(tier, name="doc-mc"):
     for raw in tlc.parse_tuples(out, "RTS"):
         v = tlc.tla_value(raw)
         meta["rts"][v[1]] = {e[0]: e[1] for e in v[2]}
+    for raw in tlc.parse_tuples(out, "BADVALS"):
+        meta["badvals"] = sorted(tlc.tla_value(raw)[1])
+    for raw in tlc.parse_tuples(out, "BOUNDARY"):
+        v = tlc.tla_value(raw)
+        meta["boundary"] = set(range(v[1], v[2] + 1))
+    if not meta.get("badvals") or not meta.get("boundary"):
+        raise MachineryError("MC_Doc printed no boundary catalogue")
     if not texts or ("full", 0) not in cfgsets or "nvar" not in meta:
         raise MachineryError("MC_Doc printed no catalogue")
     seen = set()
@@ -272,8 +279,27 @@ def _plain(x):
     return all(c == "\t" or " " <= c <= "~" for c in x)
 
 
+# shape of a tag: name (letter + letter/digit), a letter, a non-empty printable value.  Which
+# letters are datatypes and which values a datatype admits is decided by Doc!Taggable.
+SHAPE_RE = re.compile(r"^[A-Za-z][A-Za-z0-9]:[A-Za-z]:[ -~]+$")
+NO_SHAPE = dict(n="", t="", v="", sub="", el=[])
+KNOWN_RT = set("HSLCPEGFOU")
+
+
+def is_custom(text):
+    rt = text.split("\t", 1)[0]
+    return not text.startswith("#") and rt not in KNOWN_RT and rt != "?record_type?"
+
+
 def abstract(text, ver):
     r = project.abstract_text(text, version=ver)
+    sh = []
+    if is_custom(text):
+        # a user-defined record: the number of positional fields is not given by the record type.
+        # All fields are delivered with their shapes; Doc!Resolve draws the boundary.
+        fields = text.split("\t")[1:]
+        r["f"], r["tags"] = fields, []
+        sh = [tag_struct(x) if SHAPE_RE.match(x) else dict(NO_SHAPE) for x in fields]
     # content outside printable ASCII / tab travels as code points (TLC strings cannot be inspected
     # and control characters cannot be written in a TLA+ module)
     fc = [[] if _plain(x) else [ord(c) for c in x] for x in r["f"]]
@@ -281,7 +307,8 @@ def abstract(text, ver):
     tags = [t for t in r["tags"]]
     tg = [tag_struct(t) if project.TAG_RE.match(t) else dict(n="??", t="?", v=t, sub="", el=[])
           for t in tags]
-    return dict(rt=r["rt"], name=r["name"], refs=r["refs"], f=r["f"], fc=fc, num=r["num"], ovs=r["ovs"], tg=tg)
+    return dict(rt=r["rt"], name=r["name"], refs=r["refs"], f=r["f"], fc=fc, num=r["num"], ovs=r["ovs"], tg=tg,
+                sh=sh)
 
 
 class Shard:
@@ -443,7 +470,7 @@ def random_tag(rnd, name):
 
 def random_tags(rnd, maxn=3):
     n = rnd.choice([0, 1, 1, 2, 3][:maxn + 2])
-    names = rnd.sample(["aa", "ab", "zz", "x1", "q9", "tg", "uu", "k2", "mm"], n)
+    names = rnd.sample(TAG_NAMES, n)
     return [random_tag(rnd, nm) for nm in names]
 
 
@@ -457,7 +484,42 @@ def _inv(o):
     return "-" if o == "+" else "+"
 
 
-def random_doc(rnd, ver):
+TAG_NAMES = ["aa", "ab", "zz", "x1", "q9", "tg", "uu", "k2", "mm"]
+
+
+def random_custom(rnd, bad):
+    """A custom record around the boundary between positional fields and tags: [plain fields] + k
+    tag-shaped fields that are positional (value impossible for the datatype: `bad`, the table
+    Doc!BadVals; unknown datatype letter; name repeated further right; good tag left of a field
+    that is none) + m real tags.  Which is which is decided by Doc!Resolve, not here."""
+    names = rnd.sample(TAG_NAMES, len(TAG_NAMES))
+    real = [random_tag(rnd, names.pop()) for _ in range(rnd.choice([0, 1, 1, 2, 3]))]
+    left = []
+    for _ in range(rnd.choice([1, 1, 2, 3])):
+        k = rnd.random()
+        if k < 0.35:
+            left.append(names[0] + ":" + rnd.choice(bad))
+        elif k < 0.45:
+            left.append("%s:%s:%s" % (names[0], rnd.choice("QzaCIbh"), rnd.choice(["1", "x", "1,2"])))
+        elif k < 0.8 and (real or left):
+            # the name of a field further right
+            other = rnd.choice(real + [x for x in left if SHAPE_RE.match(x)] or real + left)
+            left.insert(0, random_tag(rnd, other[:2]))
+            continue
+        elif k < 0.9:
+            left.append(rnd.choice(["plain", "a:b:c", "12", "x:i:1", "1x:i:1", "abc:i:1", "xx:i", "xx:Z"]))
+        else:
+            # twice the same name: only the right one can be a tag
+            left += [random_tag(rnd, names[0]), random_tag(rnd, names[0])]
+        if rnd.random() < 0.4:
+            left.insert(0, random_tag(rnd, names[1]))     # a good tag, left of a field that is none
+    plain = ["p%d" % rnd.randint(0, 9) for _ in range(rnd.choice([0, 0, 1, 2]))]
+    # the record type of a custom record is any text that is not a standard one
+    rt = rnd.choice(["X", "Y", "Z", "X", "Y", "Z", "XY", "s", "x1", "custom", "1"])
+    return "\t".join([rt] + plain + left + real)
+
+
+def random_doc(rnd, ver, bad=()):
     """A valid document as a list of lines (validity is re-checked by TLC: Doc!IsValidDoc)."""
     L = []
     add = lambda fields, tags=True: L.append("\t".join(fields + (random_tags(rnd) if tags else [])))
@@ -599,16 +661,18 @@ def random_doc(rnd, ver):
             add([rnd.choice("XYZ"), "f%d" % i] +
                 ["v%d" % rnd.randint(0, 99) + (rnd.choice(SPLIT_ASCII) + "w" if rnd.random() < 0.15 else "")
                  for _ in range(rnd.randint(0, 2))])
+        for i in range(rnd.randint(0, 2)):
+            L.append(random_custom(rnd, bad))
     rnd.shuffle(L)
     return L
 
 
-def random_jobs(n, seed):
+def random_jobs(n, seed, bad):
     rnd = random.Random(seed)
     jobs = []
     for i in range(n):
         ver = rnd.choice(["gfa1", "gfa2"])
-        lines = random_doc(rnd, ver)
+        lines = random_doc(rnd, ver, bad)
         cfgs = []
         for v in range(4):
             for _ in range(2):
@@ -687,7 +751,7 @@ def check_c01(out, tier, seed):
     t0 = time.time()
     jobs, st, meta = mc_cases(tier)
     t1 = time.time()
-    rjobs = random_jobs(TIERS[tier]["nrand"], seed)
+    rjobs = random_jobs(TIERS[tier]["nrand"], seed, meta["badvals"])
     alljobs = jobs + rjobs
     trun = tval = 0.0
     # coverage counters (measured from the cases that were run)
@@ -697,6 +761,7 @@ def check_c01(out, tier, seed):
     docs = set()
     maxenum = maxrand = 0
     nspecial = nspecial_runs = 0
+    nbound = nbound_runs = nshaped = nshaped_runs = 0
     rejects, kept = [], {}
     samples = []
     for c0 in range(0, len(alljobs), CHUNK):
@@ -733,6 +798,12 @@ def check_c01(out, tier, seed):
             if not all(_plain(x) for x in g["lines"]):
                 nspecial += 1
                 nspecial_runs += len(g["runs"])
+            if any(is_custom(x) and any(SHAPE_RE.match(y) for y in x.split("\t")[1:]) for x in g["lines"]):
+                nshaped += 1
+                nshaped_runs += len(g["runs"])
+            if g["kind"] == "enum" and g["ver"] == "gfa2" and set(g["cat"]["doc"]) & meta["boundary"]:
+                nbound += 1
+                nbound_runs += len(g["runs"])
             if g["kind"] == "enum":
                 docs.add((g["ver"], tuple(sorted(g["cat"]["doc"]))))
                 maxenum = max(maxenum, len(g["lines"]))
@@ -749,6 +820,9 @@ def check_c01(out, tier, seed):
     if not need_rt <= set(rts) or not set("AifZJHB") <= set(dts) or set(entries) != set(ENTRIES) \
             or set(vlevels) != set("0123") or set(vmodes) != {"explicit", "auto"}:
         raise MachineryError("coverage constraint not met: %r %r %r" % (sorted(rts), sorted(dts), sorted(entries)))
+    if nbound < len(meta["boundary"]) or nshaped < 1:
+        raise MachineryError("boundary catalogue of custom records not run: %d groups, %d with tag-shaped fields"
+                             % (nbound, nshaped))
     out.add_cov(evaluations=nruns, distinct_nontrivial=len(distinct),
                 rule="one evaluation = one document parsed through one configuration (vlevel, explicit/auto "
                      "version, entry point) and written back three ways + second round; non-trivial = distinct "
@@ -758,6 +832,8 @@ def check_c01(out, tier, seed):
                 mc_states_generated=st[0], mc_states_distinct=st[1], groups_judged_by_tlc=ngroups,
                 distinct_outcomes_judged=nouts, max_lines_enumerated=maxenum, max_lines_random=maxrand,
                 groups_with_special_characters=nspecial, evaluations_with_special_characters=nspecial_runs,
+                groups_of_custom_boundary_catalogue=nbound, evaluations_of_custom_boundary_catalogue=nbound_runs,
+                groups_with_tag_shaped_custom_fields=nshaped, evaluations_with_tag_shaped_custom_fields=nshaped_runs,
                 exhaustive=False)
     out.cov["bounds"] = dict(TIERS[tier], catalogue_lines={"gfa1": len(meta["rts"][1]), "gfa2": len(meta["rts"][2])},
                              tag_variants=meta["nvar"])
@@ -791,6 +867,9 @@ def check_c01(out, tier, seed):
         "also of a custom-record field (no grammar in the GFA2 specification, gfapy's generic datatype excludes "
         "only tab and newline); CR/LF are terminators and never content; non-ASCII content is used only when the "
         "locale's file encoding is UTF-8",
+        "custom records: reading from the right, a field is a tag while it has the shape of a tag, a datatype "
+        "letter, a value the datatype admits (table Doc!BadVals for the impossible ones in use) and a name no tag "
+        "further right has; everything else is positional and written back unchanged -- at every validation level",
         "documents outside the catalogue are covered only by the seeded random driver (<= ~25 lines); "
         "floats outside the spelling table are held to the fixed point only",
     ]
@@ -900,6 +979,22 @@ def selftest():
         if ver == "gfa1":
             muts.append((mut(g, "header", lambda o: each(o, lambda ls: [x.replace("ia:i:5", "ia:i:6") for x in ls])), "C01.header"))
             muts.append((mut(g, "bothlinks", lambda o: each(o, lambda ls: ls + ["L\tB\t-\tA\t-\t1M1I2M"])), "C01.added"))
+    # custom records: a tag-shaped positional field is not a tag (levels 1 and 3: the boundary
+    # itself is a finding at level 0 on trees without the repair of doc2-1)
+    cust = run_group(dict(id="st9", kind="rand", ver="gfa2", cat=dict(doc=[], tv=0, ord=""),
+                          lines=["S\ta\t4\tACGT", "X\tsample\txx:i:+5\txx:i:2\tzz:f:1e3",
+                                 "Y\tq1:f:1e3\tcn:B:c,300\tkk:Z:second"],
+                          cfgs=[[1, "auto", "str"], [3, "explicit", "fileLF"]]))
+    base.append(cust)
+    rep = lambda a, b: (lambda o: each(o, lambda ls: [x.replace(a, b) for x in ls]))
+    muts += [
+        (mut(cust, "posnorm", rep("\txx:i:+5\t", "\txx:i:5\t")), "C01.field"),
+        (mut(cust, "posnorm2", rep("\tq1:f:1e3\t", "\tq1:f:1000.0\t")), "C01.field"),
+        (mut(cust, "posdrop", rep("\txx:i:+5\t", "\t")), "C01.field"),
+        (mut(cust, "posorder", rep("\txx:i:+5\txx:i:2\t", "\txx:i:2\txx:i:+5\t")), "C01.missing"),
+        (mut(cust, "posbad", rep("\tcn:B:c,300\t", "\tcn:B:s,300\t")), "C01.missing"),   # now a tag, and q1 with it
+        (mut(cust, "tagval", rep("\tzz:f:1000.0", "\tzz:f:1e3")), ""),          # a spelling: accepted
+    ]
     allg = base + [m for m, _ in muts]
     rej = validate(allg, "doc-selftest", nshards=2)
     by = {}
@@ -911,7 +1006,7 @@ def selftest():
             bad.append("uncorrupted recording %s rejected: %s" % (g["id"], sorted(by[g["id"]])))
     for m, want in muts:
         got = by.get(m["id"], set())
-        if want not in got:
+        if (want not in got) if want else bool(got):
             bad.append("corruption %s: expected %s, TLC reported %s" % (m["id"], want, sorted(got)))
     for b in bad:
         print("SELFTEST-FAIL:", b)
